@@ -4,17 +4,22 @@
 
    Passwords are interned by the harness: ids below 1000 are strings of at most 72 bytes (0 = ""),
    an id 1000*k + i (k >= 1) is a string longer than 72 bytes whose first 72 bytes are the string i.
-   A hash is the pair (salt, password); verification compares the first 72 bytes, which is what bcrypt
-   does; SHA-1 is the identity on ids (injective). *)
+   bcrypt keys a password by the first 72 bytes of the cyclic repetition of password ++ NUL, so
+     - a string longer than 72 bytes is equivalent to its 72-byte prefix            (id mod 1000),
+     - "ab" ++ NUL ++ "ab" (id 7) is equivalent to "ab" (id 6); id 2 also contains a NUL byte.
+   [canon] maps an id to the representative of its bcrypt class; a hash is the pair (salt, password) and
+   verification compares representatives, which is what bcrypt does on this alphabet; SHA-1 is the identity
+   on ids (injective).  [plain] = at most 72 bytes and NUL-free. *)
 From SG Require Import Base.Prelude C12.AuthN.
 Open Scope N_scope.
 
 Definition xhash : Type := (N * N)%type.
-Definition trunc72 (p : N) : N := p mod 1000.
+Definition canon (p : N) : N := let t := p mod 1000 in if t =? 7 then 6 else t.
 Definition XC : crypto :=
   mkCrypto xhash
            (fun a b => (fst a =? fst b) && (snd a =? snd b))
            (fun salt p => (salt, p))
-           (fun h q => snd h =? trunc72 q)
+           (fun h q => canon (snd h) =? canon q)
            (fun p => p)
-           (fun p => 1000 <=? p).
+           (fun p => 1000 <=? p)
+           (fun p => (p <? 1000) && negb (p =? 2) && negb (p =? 7)).
